@@ -32,4 +32,8 @@ theorem getEntryAndProofRespond_tie (li ts : Int) (treeSize : Nat) (leaf : Optio
   simp only [getEntryAndProofRespond, Gen.getEntryAndProof]
   rcases leaf with _ | l <;> rcases proof with _ | p <;> simp <;> (repeat' split) <;> simp_all [List.isEmpty_iff] <;> omega
 
+/-- `marshalGetEntriesResponse` (regenerated whole) has no error return: a leaf that does not decode is logged and still
+served, so the `leafDecodeFails` input of `Gen.getEntries` is always false and every leaf the backend returned is served -/
+theorem marshalGetEntriesResponse_never_fails : Gen.marshalGetEntriesResponse = ErrKind.ok := rfl
+
 end C07
